@@ -114,7 +114,7 @@ func loadConfig() (*ConfigFile, error) {
 }
 
 func buildCfg(cf *ConfigFile, h *HarnessDef, tier string, twin bool) (*RunCfg, error) {
-	cfg := &RunCfg{Mode: "canonical", Unwind: 300, MaxSteps: 3000000, MaxPaths: 200000, MaxDepth: 4000, TimeoutS: 150, ConcMax: 70, QueryMs: 20000, Preempt: 2}
+	cfg := &RunCfg{Mode: "canonical", Unwind: 300, MaxSteps: 3000000, MaxPaths: 200000, MaxDepth: 4000, TimeoutS: 600, ConcMax: 70, QueryMs: 20000, Preempt: 2}
 	for _, raw := range []json.RawMessage{cf.Defaults, h.Base} {
 		if raw != nil {
 			if err := json.Unmarshal(raw, cfg); err != nil {
